@@ -35,7 +35,10 @@ type Spec struct {
 	Module string   `json:"module"` // Coq file name (informational)
 	Files  []string `json:"files"`  // Go files relative to the repo root
 	Funcs  []string `json:"funcs"`  // "Recv.Method" or "Func" or "pkg.Func" (pkg = the Go package name of the file)
-	Consts []string `json:"consts"` // package-level constants to translate
+	Consts []string `json:"consts"` // package-level constants / variables to translate ("Name" or "pkg.Name")
+	// Primary: packages whose declarations are visible unqualified (default: all packages of Files).
+	// Declarations of the other packages are visible only as pkg.Name.
+	Primary []string `json:"primary"`
 }
 
 type intType struct {
@@ -64,13 +67,16 @@ type fn struct {
 }
 
 var (
-	ints    = map[string]intType{}
-	structs = map[string][]field{}
-	fns     = map[string]*fn{}
-	consts  = map[string]ast.Expr{}
-	constTy = map[string]string{}
-	pkgOf   = map[string]string{} // func key -> package
-	fset    = token.NewFileSet()
+	ints        = map[string]intType{}
+	structs     = map[string][]field{}
+	fns         = map[string]*fn{}
+	consts      = map[string]ast.Expr{}
+	constTy     = map[string]string{}
+	pkgOf       = map[string]string{} // func key -> package
+	constPkg    = map[string]string{}
+	structPkg   = map[string]string{}
+	constTyExpr = map[string]ast.Expr{}
+	fset        = token.NewFileSet()
 )
 
 func fail(n ast.Node, f string, a ...any) {
@@ -82,9 +88,25 @@ func fail(n ast.Node, f string, a ...any) {
 	os.Exit(2)
 }
 
+// curPkg: the Go package whose declaration is being read / translated; bare type names resolve in it first
+var curPkg string
+
+func bare(t string) string {
+	if i := strings.LastIndex(t, "."); i >= 0 {
+		return t[i+1:]
+	}
+	return t
+}
+
 func typeName(e ast.Expr) string {
 	switch t := e.(type) {
 	case *ast.Ident:
+		if _, ok := ints[curPkg+"."+t.Name]; ok {
+			return curPkg + "." + t.Name
+		}
+		if _, ok := structs[curPkg+"."+t.Name]; ok {
+			return curPkg + "." + t.Name
+		}
 		return t.Name
 	case *ast.SelectorExpr:
 		return typeName(t.X) + "." + t.Sel.Name
@@ -95,7 +117,7 @@ func typeName(e ast.Expr) string {
 	return ""
 }
 
-func isInt(t string) bool  { _, ok := ints[t]; return ok }
+func isInt(t string) bool    { _, ok := ints[t]; return ok }
 func isStruct(t string) bool { _, ok := structs[t]; return ok }
 
 func coqType(t string) string {
@@ -105,7 +127,7 @@ func coqType(t string) string {
 	case isInt(t):
 		return "Z"
 	case isStruct(t):
-		return t
+		return bare(t)
 	}
 	fail(nil, "type %s is not in the subset", t)
 	return ""
@@ -142,8 +164,18 @@ func (e *env) typeOf(x ast.Expr) string {
 		if ty, ok := constTy[t.Name]; ok {
 			return ty
 		}
+		if ty, ok := constTy[curPkg+"."+t.Name]; ok {
+			return ty
+		}
 		fail(x, "unknown identifier %s", t.Name)
 	case *ast.SelectorExpr:
+		if id, ok := t.X.(*ast.Ident); ok {
+			if _, isVar := e.vars[id.Name]; !isVar {
+				if ty, ok := constTy[id.Name+"."+t.Sel.Name]; ok {
+					return ty
+				}
+			}
+		}
 		if id, ok := t.X.(*ast.Ident); ok && id.Name == "math" {
 			return ""
 		}
@@ -208,12 +240,15 @@ func (e *env) callee(c *ast.CallExpr) (*fn, ast.Expr) {
 					if isInt(id.Name + "." + f.Sel.Name) {
 						return nil, nil
 					}
+					if _, isBuiltinPkg := map[string]bool{"math": true}[id.Name]; isBuiltinPkg && false {
+						return nil, nil
+					}
 					fail(c, "call of %s.%s: function not in the translation set", id.Name, f.Sel.Name)
 				}
 			}
 		}
 		rt := e.typeOf(f.X)
-		if g, ok := fns[rt+"."+f.Sel.Name]; ok {
+		if g, ok := fns[bare(rt)+"."+f.Sel.Name]; ok {
 			return g, f.X
 		}
 		fail(c, "method %s.%s is not in the translation set", rt, f.Sel.Name)
@@ -224,7 +259,7 @@ func (e *env) callee(c *ast.CallExpr) (*fn, ast.Expr) {
 func wrap(t string, s string) string {
 	it, ok := ints[t]
 	if !ok {
-		return s // untyped constant arithmetic: exact
+		return "(" + s + ")" // untyped constant arithmetic: exact
 	}
 	if it.signed {
 		return fmt.Sprintf("(wrap_s %d (%s))", it.bits, s)
@@ -251,8 +286,18 @@ func (e *env) expr(x ast.Expr) string {
 		if _, ok := constTy[t.Name]; ok {
 			return t.Name
 		}
+		if _, ok := constTy[curPkg+"."+t.Name]; ok {
+			return curPkg + "_" + t.Name
+		}
 		fail(x, "unknown identifier %s", t.Name)
 	case *ast.SelectorExpr:
+		if id, ok := t.X.(*ast.Ident); ok {
+			if _, isVar := e.vars[id.Name]; !isVar {
+				if _, ok := constTy[id.Name+"."+t.Sel.Name]; ok {
+					return strings.ReplaceAll(id.Name+"."+t.Sel.Name, ".", "_")
+				}
+			}
+		}
 		if id, ok := t.X.(*ast.Ident); ok && id.Name == "math" {
 			switch t.Sel.Name {
 			case "MaxInt64":
@@ -272,7 +317,7 @@ func (e *env) expr(x ast.Expr) string {
 		if !isStruct(st) {
 			fail(x, "selector on non-struct %s", st)
 		}
-		return fmt.Sprintf("(%s_%s %s)", st, t.Sel.Name, e.expr(t.X))
+		return fmt.Sprintf("(%s_%s %s)", bare(st), t.Sel.Name, e.expr(t.X))
 	case *ast.UnaryExpr:
 		switch t.Op {
 		case token.NOT:
@@ -306,6 +351,10 @@ func (e *env) expr(x ast.Expr) string {
 			return wrap(lt, a+" - "+b)
 		case token.MUL:
 			return wrap(lt, a+" * "+b)
+		case token.OR:
+			return "(Z.lor " + a + " " + b + ")"
+		case token.AND:
+			return "(Z.land " + a + " " + b + ")"
 		case token.SHR:
 			return "(Z.shiftr " + a + " " + b + ")"
 		case token.SHL:
@@ -324,7 +373,7 @@ func (e *env) expr(x ast.Expr) string {
 			case lt == "bool":
 				s = "(Bool.eqb " + a + " " + b + ")"
 			case isStruct(lt):
-				s = "(" + lt + "_eqb " + a + " " + b + ")"
+				s = "(" + bare(lt) + "_eqb " + a + " " + b + ")"
 			default:
 				s = "(" + a + " =? " + b + ")"
 			}
@@ -370,7 +419,7 @@ func (e *env) expr(x ast.Expr) string {
 				vals[i] = e.conv(fs[i].typ, el)
 			}
 		}
-		return "(mk" + st + " " + strings.Join(vals, " ") + ")"
+		return "(mk" + bare(st) + " " + strings.Join(vals, " ") + ")"
 	case *ast.CallExpr:
 		if id, ok := t.Fun.(*ast.Ident); ok && (id.Name == "min" || id.Name == "max") && len(t.Args) == 2 {
 			if _, shadow := fns[id.Name]; !shadow {
@@ -474,10 +523,10 @@ func (e *env) assignTerm(lhs ast.Expr, rhs string) (string, string) {
 			if f.name == t.Sel.Name {
 				parts = append(parts, rhs)
 			} else {
-				parts = append(parts, fmt.Sprintf("(%s_%s %s)", st, f.name, e.expr(t.X)))
+				parts = append(parts, fmt.Sprintf("(%s_%s %s)", bare(st), f.name, e.expr(t.X)))
 			}
 		}
-		return e.assignTerm(t.X, "(mk"+st+" "+strings.Join(parts, " ")+")")
+		return e.assignTerm(t.X, "(mk"+bare(st)+" "+strings.Join(parts, " ")+")")
 	}
 	fail(lhs, "unsupported assignment target")
 	return "", ""
@@ -635,6 +684,12 @@ func main() {
 		d   *ast.FuncDecl
 		pkg string
 	}
+	type alias struct{ pkg, name, under, underPkg string }
+	var aliases []alias
+	primary := map[string]bool{}
+	for _, p := range spec.Primary {
+		primary[p] = true
+	}
 	var decls []pending
 	var constOrder []string
 	for _, rel := range spec.Files {
@@ -643,6 +698,7 @@ func main() {
 			fail(nil, "%v", err)
 		}
 		pkg := f.Name.Name
+		curPkg = pkg
 		for _, d := range f.Decls {
 			switch t := d.(type) {
 			case *ast.GenDecl:
@@ -651,8 +707,10 @@ func main() {
 					case *ast.TypeSpec:
 						switch u := s.Type.(type) {
 						case *ast.Ident:
-							if it, ok := baseInts[u.Name]; ok {
-								ints[s.Name.Name] = it
+							aliases = append(aliases, alias{pkg, s.Name.Name, u.Name, pkg})
+						case *ast.SelectorExpr:
+							if q, ok := u.X.(*ast.Ident); ok {
+								aliases = append(aliases, alias{pkg, s.Name.Name, u.Sel.Name, q.Name})
 							}
 						case *ast.StructType:
 							ok := true
@@ -668,7 +726,8 @@ func main() {
 								}
 							}
 							if ok {
-								structs[s.Name.Name] = fs
+								structs[pkg+"."+s.Name.Name] = fs
+								structPkg[pkg+"."+s.Name.Name] = pkg
 							}
 						}
 					case *ast.ValueSpec:
@@ -676,21 +735,27 @@ func main() {
 							continue
 						}
 						for i, n := range s.Names {
-							if wantConst[n.Name] {
+							cname := n.Name
+							if !wantConst[cname] && wantConst[pkg+"."+cname] {
+								cname = pkg + "." + cname
+							} else if wantConst[cname] && len(primary) > 0 && !primary[pkg] {
+								continue
+							}
+							if wantConst[cname] {
 								if i >= len(s.Values) {
 									fail(s, "constant %s has no explicit value (iota not supported)", n.Name)
 								}
-								consts[n.Name] = s.Values[i]
+								consts[cname] = s.Values[i]
+								constPkg[cname] = pkg
 								if s.Type != nil {
-									constTy[n.Name] = typeName(s.Type)
+									constTyExpr[cname] = s.Type
 								} else if c, ok := s.Values[i].(*ast.CallExpr); ok {
-									constTy[n.Name] = typeName(c.Fun)
+									constTyExpr[cname] = c.Fun
 								} else if c, ok := s.Values[i].(*ast.CompositeLit); ok {
-									constTy[n.Name] = typeName(c.Type)
-								} else {
-									constTy[n.Name] = "int"
+									constTyExpr[cname] = c.Type
 								}
-								constOrder = append(constOrder, n.Name)
+								constTy[cname] = "int"
+								constOrder = append(constOrder, cname)
 							}
 						}
 					}
@@ -700,9 +765,37 @@ func main() {
 			}
 		}
 	}
+	// resolve named integer types (type T U, type T pkg.U) to a width, to a fixpoint
+	for changed := true; changed; {
+		changed = false
+		for _, a := range aliases {
+			if _, done := ints[a.pkg+"."+a.name]; done {
+				continue
+			}
+			it, ok := ints[a.underPkg+"."+a.under]
+			if !ok && a.underPkg == a.pkg {
+				it, ok = baseInts[a.under]
+			}
+			if ok {
+				ints[a.pkg+"."+a.name] = it
+				changed = true
+			}
+		}
+	}
+	for c, te := range constTyExpr {
+		curPkg = constPkg[c]
+		constTy[c] = typeName(te)
+	}
+	for sn, fs := range structs {
+		curPkg = structPkg[sn]
+		for i := range fs {
+			fs[i].typ = typeName(&ast.Ident{Name: fs[i].typ})
+		}
+	}
 	// struct fields must be integer types or bool (checked lazily via coqType)
 	for _, p := range decls {
 		d := p.d
+		curPkg = p.pkg
 		key := d.Name.Name
 		var params []field
 		if d.Recv != nil {
@@ -716,7 +809,7 @@ func main() {
 				continue
 			}
 			rt := typeName(d.Recv.List[0].Type)
-			key = rt + "." + key
+			key = bare(rt) + "." + key
 			rn := "_recv"
 			if len(d.Recv.List[0].Names) == 1 {
 				rn = d.Recv.List[0].Names[0].Name
@@ -760,6 +853,7 @@ func main() {
 	bodies := map[string]string{}
 	deps := map[string][]string{}
 	for k, g := range fns {
+		curPkg = g.pkg
 		e := &env{vars: map[string]string{}, f: g}
 		for _, p := range g.params {
 			e.vars[p.name] = p.typ
@@ -820,11 +914,12 @@ func main() {
 		}
 		return false
 	}
-	for _, s := range snames {
-		if !usedStruct(s) {
+	for _, sq := range snames {
+		if !usedStruct(sq) {
 			continue
 		}
-		fs := structs[s]
+		fs := structs[sq]
+		s := bare(sq)
 		parts, eqs, tys := []string{}, []string{}, []string{}
 		for _, f := range fs {
 			parts = append(parts, fmt.Sprintf("%s_%s : %s", s, f.name, coqType(f.typ)))
@@ -847,7 +942,8 @@ func main() {
 	}
 	ce := &env{vars: map[string]string{}, f: &fn{}}
 	for _, c := range constOrder {
-		fmt.Fprintf(&out, "Definition %s : %s := %s.\n", c, coqType(constTy[c]), ce.constExpr(consts[c]))
+		curPkg = constPkg[c]
+		fmt.Fprintf(&out, "Definition %s : %s := %s.\n", strings.ReplaceAll(c, ".", "_"), coqType(constTy[c]), ce.constExpr(consts[c]))
 	}
 	done := map[string]bool{}
 	var emit func(k string, depth int)
